@@ -67,6 +67,10 @@ instance : Inhabited RExpr := ⟨.bool false⟩
 instance : Inhabited RBlock := ⟨.nil⟩
 instance : Inhabited RExprs := ⟨.nil⟩
 
+def RBlock.append : RBlock → RBlock → RBlock
+  | .nil, c => c
+  | .cons s b, c => .cons s (RBlock.append b c)
+
 def RExprs.length : RExprs → Nat
   | .nil => 0
   | .cons _ es => es.length + 1
